@@ -9,7 +9,7 @@
     start/end line/column statements for tokens and errors are tested by the check's oracle. *)
 From Coq Require Import NArith List.
 From SasLexer Require Import Gen.TokenType Gen.ErrorKind Gen.Channel Model.Base Model.Core Model.Buffer
-     Model.Lexer3 Spec.RefLex Proofs.Generic Proofs.Lines Proofs.LexLines Proofs.TokLines Proofs.ErrLines Proofs.ColLines Proofs.OcAll Proofs.MacroFree.
+     Model.Lexer3 Spec.RefLex Proofs.Generic Proofs.Lines Proofs.LexLines Proofs.TokLines Proofs.ErrLines Proofs.ColLines Proofs.EndLines Proofs.OcAll Proofs.MacroFree.
 Import ListNotations.
 Open Scope N_scope.
 
@@ -103,6 +103,38 @@ Theorem C04_macro_free_token_start_column : forall (msep : bool) (src : list cha
 Proof. exact mf_C04_macro_free_token_start_column. Qed.
 Print Assumptions C04_macro_free_token_start_column.
 
+(** End lines and end columns, as the accessors report them for a token followed by another one (the
+    last token, EOF, is empty and ends where it starts).  [pe] is the text before the token's end.
+    [end_pos pe nonempty]: if the token is not empty and its last character is a line feed, the line
+    feed's own line and the column just past it; otherwise the line and column of the end position.
+    Premise besides those of the line table: the two starts are in order (C02). *)
+Theorem C04_token_end_position : forall (cfg : config) (src : list char),
+  let r := lex cfg src in
+  let '((bb, _), text) := split_bom src in
+  lr_outcome r = None ->
+  g_lines_ok (s_ghost (lr_state r)) = true ->
+  g_line_debt (s_ghost (lr_state r)) = false ->
+  c_rest (s_cur (lr_state r)) = [] ->
+  match w_toks (s_buf (lr_state r)) with t :: _ => tt_eqb (t_type t) T_EOF | [] => false end = true ->
+  forall d i t nt, nthN (b_toks (lr_buffer r)) i = Some t -> nthN (b_toks (lr_buffer r)) (i + 1) = Some nt ->
+  t_byte t <= t_byte nt ->
+  forall pe re, text = pe ++ re -> blen pe + bb = t_byte nt ->
+    let ep := end_pos pe (negb (t_byte t =? t_byte nt)) in
+    get_token_end_line d (lr_buffer r) i = AOk (fst ep) /\ get_token_end_column d (lr_buffer r) i = AOk (snd ep).
+Proof. exact lex_token_end_position. Qed.
+Print Assumptions C04_token_end_position.
+
+Theorem C04_macro_free_token_end_position : forall (msep : bool) (src : list char),
+  macro_free (body_of src) = true ->
+  let r := lex (mkCfg false msep) src in
+  let '((bb, _), text) := split_bom src in
+  forall d i t nt, nthN (b_toks (lr_buffer r)) i = Some t -> nthN (b_toks (lr_buffer r)) (i + 1) = Some nt ->
+  forall pe re, text = pe ++ re -> blen pe + bb = t_byte nt ->
+    let ep := end_pos pe (negb (t_byte t =? t_byte nt)) in
+    get_token_end_line d (lr_buffer r) i = AOk (fst ep) /\ get_token_end_column d (lr_buffer r) i = AOk (snd ep).
+Proof. exact mf_C04_macro_free_token_end_position. Qed.
+Print Assumptions C04_macro_free_token_end_position.
+
 (** Lines and columns of errors.  For every input and both profiles: if the run returns with the
     monitor on, every reported error carries the 1-based line of its position (one plus the number
     of line feeds before it) and, as column, the number of characters since the last line feed
@@ -167,6 +199,15 @@ Example c04_column_example :
   map (fun i => get_token_start_column true b i) [0; 1; 2; 3; 4; 5; 6; 7] =
   [AOk 0; AOk 1; AOk 2; AOk 3; AOk 4; AOk 2; AOk 3; AOk 4].
 Proof. vm_compute. reflexivity. Qed.
+
+(** end positions: a token ending in a line feed ends on that line; the next one starts the next line *)
+Example c04_end_example :
+  let src := [120; 59; 10; 121; 59] in
+  let b := lr_buffer (lex (mkCfg true false) src) in
+  map (fun i => (get_token_end_line true b i, get_token_end_column true b i)) [0; 1; 2; 3; 4] =
+  [(AOk 1, AOk 1); (AOk 1, AOk 2); (AOk 1, AOk 3); (AOk 2, AOk 1); (AOk 2, AOk 2)] /\
+  end_pos [120; 59; 10] true = (1, 3) /\ end_pos [120; 59; 10] false = (2, 0).
+Proof. vm_compute. repeat split; reflexivity. Qed.
 
 (** errors: a BOM, an unterminated comment after two lines, and a missing '=' after multi-byte text *)
 Example c04_error_example :
